@@ -478,3 +478,43 @@ Qed.
 
 Lemma wf_empty : wf_db [].
 Proof. split; cbn; [auto|intros ? ? []]. Qed.
+
+(* ------------------------------------------------------------------ decider soundness, the model on its classes *)
+
+Lemma wf_db_of tables : wf_db (db_of tables).
+Proof.
+  unfold db_of. generalize wf_empty. generalize (@nil (str * tstate)).
+  induction tables as [|t r IH]; intros A HA; cbn; auto.
+  apply IH. apply wf_put; auto. apply wf_ts_of.
+Qed.
+
+Lemma check_C09_sound i o : check_C09 i o = true -> C09_holds i o.
+Proof.
+  destruct i as [x|up|tables up], o as [r rr sql|down|down upup ok]; cbn [check_C09 C09_holds]; try discriminate; intros H.
+  - apply andb_true_iff in H as [H1 H2]; split.
+    + intros x' ->. apply decb_true in H1. exact H1.
+    + intros x'' ->. apply andb_true_iff in H2 as [H2 H3]. split; [apply ddl_equivb_top_sound; auto|auto].
+  - apply andb_true_iff in H as [H1 H2]; split.
+    + intros d ->. apply andb_true_iff in H1 as [H1 H3]. apply decb_true in H1. split; auto.
+    + intros u ->. eapply forall2b_Forall2; [|exact H2]. apply ddl_equivb_top_sound.
+  - destruct down as [d|e]; [|discriminate]. destruct (apply_ops up (db_of tables)) as [B|] eqn:HB; [|discriminate].
+    apply andb_true_iff in H as [H1 H2]. apply decb_true in H1. apply decb_true in H2.
+    exists d, B. auto.
+Qed.
+
+Lemma model_C09_holds i : inclass_C09 i = true -> C09_holds i (model_C09 i).
+Proof.
+  destruct i as [x|up|tables up]; cbn [inclass_C09 model_C09 C09_holds]; intros Hs.
+  - split.
+    + intros x' H. apply reverse_top_kind; auto.
+    + intros x'' H. split; [|reflexivity].
+      destruct (reverse_top x) as [x'|e] eqn:Hx; cbn [bind] in H; [|discriminate].
+      destruct (reverse_top_involutive _ _ Hs Hx) as [y [Hy He]]. rewrite Hy in H. inversion H; subst. exact He.
+  - split.
+    + intros d H. split; [apply reverse_ops_kinds; auto|reflexivity].
+    + intros u H.
+      destruct (reverse_ops up) as [d|e] eqn:Hd; cbn [bind] in H; [|discriminate].
+      destruct (reverse_ops_involutive _ _ Hs Hd) as [y [Hy He]]. rewrite Hy in H. inversion H; subst. exact He.
+  - destruct (undo_ops up (db_of tables) (wf_db_of tables) Hs) as (d & B & Hd & Hap & Hback & _).
+    exists d, B. repeat split; auto. apply reverse_ops_kinds; auto.
+Qed.
